@@ -304,7 +304,7 @@ type verdict struct {
 	States   map[string]*rcptState
 	Order    []string
 	// evidence
-	Retries, Premature, ReportsForNull, ForeignReportNames int
+	Retries, Premature, SuppressedEarly, ReportsForNull, ForeignReportNames int
 }
 
 type oracleCfg struct {
@@ -460,12 +460,17 @@ func judge(cfg oracleCfg, m *msgSpec, atts []*attempt, reports []report) *verdic
 			add("lost", r, cause, fmt.Sprintf("the queue is quiescent, recipient %q was neither committed downstream nor named in a failure report (%s; max_tries=%d)", r, histOr(hist), cfg.MaxTries))
 			continue
 		}
-		// Reports are suppressed (null sender / no bounce pipeline): silence is
-		// acceptable only for a recipient that failed terminally.
-		if st.Attempted && (st.Last.Class == mx.Perm || exhausted) {
+		// Reports are suppressed (null sender / no bounce pipeline): a failed
+		// recipient legitimately ends in silence. The statement does not oblige
+		// the queue to use up its attempts (in the reporting case an early
+		// report passes too), so only a recipient that never failed is lost.
+		if st.Attempted && st.Last.Class != clsUnfinished {
+			if !(st.Last.Class == mx.Perm || exhausted) {
+				v.SuppressedEarly++
+			}
 			continue
 		}
-		add("lost", r, "no-report-expected/"+cause, fmt.Sprintf("the queue is quiescent, recipient %q was not committed downstream and did not fail terminally (%s; max_tries=%d)", r, histOr(hist), cfg.MaxTries))
+		add("lost", r, "no-report-expected/"+cause, fmt.Sprintf("the queue is quiescent, recipient %q was not committed downstream although no attempt failed for it (%s; max_tries=%d)", r, histOr(hist), cfg.MaxTries))
 	}
 	return v
 }
